@@ -203,6 +203,21 @@ class FunctionCase:
             scale = max(abs(l), abs(r), terms_scale(rep))
             if abs(l - r) <= 1e-6 * scale or abs(l - r) <= mpmath.mpf("1e-300"):
                 return True
+            # the output, rounded to 12 significant digits, is a pole of the law (e.g. v = -c in
+            # 1 / (1 + v / c)): the solution differs from the pole by less than the working
+            # precision, so the residual at the returned number says nothing
+            try:
+                if outv.imag == 0 and outv != 0:
+                    exact = {k: sp.Rational(mpmath.nstr(mpmath.mpmathify(v).real, 70)) for k, v in {
+                        **sub, **consts}.items() if mpmath.mpmathify(v).imag == 0}
+                    exact[self.out_sym] = sp.Rational(mpmath.nstr(outv.real, 12))
+                    if len(exact) == len(sub) + len(consts) + 1:
+                        for side in (self.law.lhs, self.law.rhs):
+                            val = side.xreplace(exact)
+                            if val.has(sp.zoo, sp.nan, sp.oo, -sp.oo):
+                                return None
+            except Exception:
+                pass
             # backward error: a sign change of the (real) residual within 1e-9 / 1e-12 relative of
             # the output, on either side
             try:
